@@ -90,8 +90,35 @@ func banpName(o job.Obj) string {
 func (h *history) op(st *job.Step, ev *job.Event) {
 	pe := h.engine()
 	switch st.Op {
-	case "insert":
+	case "insert", "insertInPlace":
 		obj, key, _ := mustDecode(st.Objs[0])
+		if st.Op == "insertInPlace" {
+			// the caller keeps the object it inserted earlier, changes it in place (the label map is the same map)
+			// and hands the same pointer in again
+			switch nw := obj.(type) {
+			case *corev1.Namespace:
+				if old, ok := h.ptrs[key].(*corev1.Namespace); ok && old.Labels != nil {
+					for k := range old.Labels {
+						delete(old.Labels, k)
+					}
+					for k, v := range nw.Labels {
+						old.Labels[k] = v
+					}
+					obj = old
+				}
+			case *corev1.Pod:
+				if old, ok := h.ptrs[key].(*corev1.Pod); ok && old.Labels != nil {
+					for k := range old.Labels {
+						delete(old.Labels, k)
+					}
+					for k, v := range nw.Labels {
+						old.Labels[k] = v
+					}
+					old.OwnerReferences, old.Spec, old.Status = nw.OwnerReferences, nw.Spec, nw.Status
+					obj = old
+				}
+			}
+		}
 		if err := pe.InsertObject(obj); err != nil {
 			ev.OpErr = err.Error()
 			return
